@@ -763,16 +763,39 @@ func vfC10NodeRun(r *vfRun, pname string) {
 	}
 }
 
-func vfC10Cfg(r *vfRun, pname string) *vfExploreCfg {
+// seeded start states ("start from non-initial states too"): event prefixes applied before the search starts
+var vfC10Seeds = map[string][]string{
+	"":          nil,
+	"mesh":      {"conn:p", "conn:q", "graft:p:t", "adv:1000", "adv:100", "decay"},                      // p active in the mesh, q a colocated bystander
+	"delivered": {"conn:p", "conn:q", "graft:p:t", "graft:q:t", "val:m1:p", "deliver:m1:p", "dup:m1:q"}, // deliveries recorded, both in the mesh
+	"retained":  {"conn:p", "graft:p:t", "penalty:p:2", "penalty:p:2", "disc:p"},                        // p disconnected with a retained negative score
+}
+
+func vfC10Cfg(r *vfRun, pname, seed string) *vfExploreCfg {
 	depth := 4
 	if r.thorough {
 		depth = 5
 	}
-	if pname == "full" || pname == "alt" {
+	if (pname == "full" || pname == "alt") && seed == "" {
 		depth++
 	}
-	return &vfExploreCfg{Scenario: map[string]any{"part": "seq", "params": pname}, Name: "params-" + pname, MaxDepth: depth, Bubble: true,
-		New: func(x *vfExec) vfInstance { return vfC10New(x, pname) }}
+	if seed != "" && !r.thorough {
+		depth = 3
+	}
+	name := "params-" + pname
+	if seed != "" {
+		name += "@" + seed
+	}
+	return &vfExploreCfg{Scenario: map[string]any{"part": "seq", "params": pname, "seed": seed}, Name: name, MaxDepth: depth, Bubble: true,
+		New: func(x *vfExec) vfInstance {
+			in := vfC10New(x, pname)
+			if in.valid {
+				for _, ev := range vfC10Seeds[seed] {
+					in.Apply(ev, false)
+				}
+			}
+			return in
+		}}
 }
 
 func init() {
@@ -781,8 +804,13 @@ func init() {
 			names := vfC10ParamNames(r.thorough)
 			r.res.Bounds["parameter_sets"] = len(names)
 			for _, pn := range names {
-				if _, ok := r.nextCase(); ok {
-					vfExplore(r, vfC10Cfg(r, pn))
+				for _, seed := range []string{"", "mesh", "delivered", "retained"} {
+					if seed != "" && pn != "full" && pn != "alt" && pn != "skip:31" && pn != "peer-skip" {
+						continue
+					}
+					if _, ok := r.nextCase(); ok {
+						vfExplore(r, vfC10Cfg(r, pn, seed))
+					}
 				}
 			}
 			for _, pn := range append(vfC10ParamNames(true), "peer-skip-nodecay") {
@@ -800,6 +828,7 @@ func init() {
 				Params   string `json:"params"`
 				Scenario struct {
 					Params string `json:"params"`
+					Seed   string `json:"seed"`
 				} `json:"scenario"`
 			}
 			json.Unmarshal(raw, &c)
@@ -808,7 +837,7 @@ func init() {
 				r.res.Executions++
 				return
 			}
-			vfReplayCase(r, vfC10Cfg(r, c.Scenario.Params), raw)
+			vfReplayCase(r, vfC10Cfg(r, c.Scenario.Params, c.Scenario.Seed), raw)
 		},
 	})
 }
